@@ -1,0 +1,10 @@
+//go:build verif
+
+package resolve
+
+// VerifRegistrySizes reports the sizes of the resolver's subscription registries.
+func (r *Resolver) VerifRegistrySizes() (triggers, subscriptionsByID, connections int) {
+	r.mu.Lock()
+	defer r.mu.Unlock()
+	return len(r.triggers), len(r.subscriptionsByID), len(r.subscriptionsByConnection)
+}
